@@ -1,6 +1,7 @@
 """
 C10  Connection-level socket faults never escape servicing.
 """
+from ..core import CaseTimeout as _CaseTimeout
 import errno
 from .. import netlab, net as netmod
 from ..core import Result, digest
@@ -125,6 +126,8 @@ def run_case(tape, tier):
                             ix.clearRxbs()
                 else:
                     lab.svc_client(i)
+            except _CaseTimeout:
+                raise
             except BaseException as ex:   # the property: servicing does not raise
                 raised.append((who if i is None else "client%d" % i, type(ex).__name__, str(ex)[:120]))
                 return False
